@@ -54,3 +54,94 @@ SPECS = {
         outside=["more than 2 writers / 2 readers / 2 operations each", "schedules needing more contexts per thread than 'rounds'",
                  "behaviours that only weaker-than-SC hardware/compilers exhibit (see C07 for the happens-before part)"]),
 }
+
+
+# ------------------------------------------------------------------------------------------------ C09
+def c09(tier):
+    qs = []
+    def P(n): return [(f'P{i + 1}', f'vp_part{i + 1}') for i in range(n)]
+    o = {'spur': 1, 'yield_blocks': False}
+    if tier == 'quick':
+        # drop generation of each participant is enumerated (one solver query per combination); schedules stay symbolic
+        for d1 in range(3):
+            for d2 in range(d1, 3):
+                qs.append(mk(f'bar_n2_g2_d{d1}{d2}_R4', 'c09_barrier.cpp', P(2), 4, cover=3,
+                             defines=['NPART=2', 'NGEN=2', f'DROP1={d1}', f'DROP2={d2}'], opts=o, unwind=3))
+        qs.append(mk('bar_n3_g2_d122_R3', 'c09_barrier.cpp', P(3), 3, cover=7, defines=['NPART=3', 'NGEN=2', 'DROP1=1', 'DROP2=2', 'DROP3=2'], opts=o, unwind=3))
+        qs.append(mk('bar_n3_g2_d022_R3', 'c09_barrier.cpp', P(3), 3, cover=7, defines=['NPART=3', 'NGEN=2', 'DROP1=0', 'DROP2=2', 'DROP3=2'], opts=o, unwind=3))
+    else:
+        o2 = {'spur': 2, 'yield_blocks': False}
+        qs.append(mk('bar_n2_g2_symdrop_R4', 'c09_barrier.cpp', P(2), 4, cover=3, defines=['NPART=2', 'NGEN=2', 'SYMDROP'], opts=o2, unwind=4, timeout=2400))
+        for d1 in range(4):
+            for d2 in range(d1, 4):
+                qs.append(mk(f'bar_n2_g3_d{d1}{d2}_R5', 'c09_barrier.cpp', P(2), 5, cover=3,
+                             defines=['NPART=2', 'NGEN=3', f'DROP1={d1}', f'DROP2={d2}'], opts=o2, unwind=4, timeout=2400))
+        for (d1, d2, d3) in [(2, 2, 2), (0, 2, 2), (1, 2, 2), (0, 1, 2), (0, 0, 2), (1, 1, 2)]:
+            qs.append(mk(f'bar_n3_g2_d{d1}{d2}{d3}_R4', 'c09_barrier.cpp', P(3), 4, cover=7,
+                         defines=['NPART=3', 'NGEN=2', f'DROP1={d1}', f'DROP2={d2}', f'DROP3={d3}'], opts=o, unwind=3, timeout=2400))
+    return qs
+
+
+SPECS['C09'] = dict(queries=c09, assumptions=COMMON_ASSUMPTIONS + [
+    "std::condition_variable::wait/notify_all modelled below the libstdc++.so ABI: wait = atomically release mutex + enqueue, resume when notified "
+    "or spuriously (per-thread budget 'spur'), then re-acquire; lost wake-up = deadlock assertion (exact state predicate, not a time-out)"],
+    outside=["more than 3 participants or 3 generations", "a Barrier whose participants all dropped (threshold 0)"])
+
+
+# ------------------------------------------------------------------------------------------------ C10
+def c10(tier):
+    qs = []
+    o = {'spur': 1, 'yield_blocks': False}
+    Wt, A, AW = 'vp_waiter', 'vp_arriver', 'vp_arrive_wait'
+    if tier == 'quick':
+        qs.append(mk('latch_w_a2_R4', 'c10_latch.cpp', [('W', Wt), ('A', A)], 4, cover=3, defines=['NARRIVE=2'], opts=o, unwind=4))
+        qs.append(mk('latch_w_a1_aw_R3', 'c10_latch.cpp', [('W', Wt), ('A', A), ('AW', AW)], 3, cover=7, defines=['NARRIVE=1'], opts=o, unwind=4))
+        qs.append(mk('latch_w_w_a3_R3', 'c10_latch.cpp', [('W1', Wt), ('W2', Wt), ('A', A)], 3, cover=7, defines=['NARRIVE=3'], opts=o, unwind=5))
+    else:
+        o2 = {'spur': 2, 'yield_blocks': False}
+        for od in orders(3, 'all'):
+            qs.append(mk('latch_w_a1_aw_R4_o' + ''.join(map(str, od)), 'c10_latch.cpp', [('W', Wt), ('A', A), ('AW', AW)], 4, order=od, cover=7,
+                         defines=['NARRIVE=1'], opts=o2, unwind=5, timeout=2400))
+        qs.append(mk('latch_w_w_a3_R4', 'c10_latch.cpp', [('W1', Wt), ('W2', Wt), ('A', A)], 4, cover=7, defines=['NARRIVE=3'], opts=o2, unwind=5, timeout=2400))
+        qs.append(mk('latch_w_aw_aw_a1_R3', 'c10_latch.cpp', [('W', Wt), ('AW1', AW), ('AW2', AW), ('A', A)], 3, cover=15, defines=['NARRIVE=1'], opts=o, unwind=5, timeout=2400))
+    return qs
+
+
+SPECS['C10'] = dict(queries=c10, assumptions=COMMON_ASSUMPTIONS + [
+    "condition variable model as in C09; the initial count is symbolic in {1,2}; every scenario issues at least 'count' arrivals, so any blocked waiter at the end is a lost wake-up"],
+    outside=["counts above 2, more than 4 threads, more than 3 arrivals per thread"])
+
+
+# ------------------------------------------------------------------------------------------------ C11
+def c11(tier):
+    qs = []
+    o = {'spur': 1, 'yield_blocks': False}
+    if tier == 'quick':
+        qs.append(mk('tv_wait_trigger_R3', 'c11_trigger.cpp', [('Wt', 'vp_waiter'), ('Wf', 'vp_waiter_for'), ('T', 'vp_triggerer')], 3,
+                     setup='vp_setup_active', cover=7, opts=o, unwind=4))
+        qs.append(mk('tv_wait_reset_R3', 'c11_trigger.cpp', [('Wt', 'vp_waiter'), ('Rs', 'vp_resetter'), ('T', 'vp_triggerer')], 3,
+                     setup='vp_setup_active', cover=7, opts=o, unwind=4, defines=['WITH_RESET']))
+        qs.append(mk('tv_activation_R3', 'c11_trigger.cpp', [('Wa', 'vp_act_waiter'), ('Wf', 'vp_act_waiter_for'), ('A', 'vp_activator')], 3,
+                     setup='vp_setup_inactive', cover=7, opts=o, unwind=4))
+        qs.append(mk('tv_sequential', 'c11_trigger.cpp', [], 1, setup='vp_setup_inactive', seq=['vp_seq_inactive'], cover=1, unwind=4))
+    else:
+        o2 = {'spur': 2, 'yield_blocks': False}
+        for od in orders(3, 'all'):
+            s_ = ''.join(map(str, od))
+            qs.append(mk('tv_wait_trigger_R4_o' + s_, 'c11_trigger.cpp', [('Wt', 'vp_waiter'), ('Wf', 'vp_waiter_for'), ('T', 'vp_triggerer')], 4, order=od,
+                         setup='vp_setup_active', cover=7, opts=o2, unwind=5, timeout=2400))
+            qs.append(mk('tv_wait_reset_R4_o' + s_, 'c11_trigger.cpp', [('Wt', 'vp_waiter'), ('Rs', 'vp_resetter'), ('T', 'vp_triggerer')], 4, order=od,
+                         setup='vp_setup_active', cover=7, opts=o2, unwind=5, timeout=2400, defines=['WITH_RESET']))
+        qs.append(mk('tv_activation_2act_R4', 'c11_trigger.cpp', [('Wa', 'vp_act_waiter'), ('Wf', 'vp_act_waiter_for'), ('A1', 'vp_activator'), ('A2', 'vp_activator')], 4,
+                     setup='vp_setup_inactive', cover=15, opts=o2, unwind=5, timeout=2400))
+        qs.append(mk('tv_wait_2trig_reset_R3', 'c11_trigger.cpp', [('Wt', 'vp_waiter'), ('Wf', 'vp_waiter_for'), ('T', 'vp_triggerer'), ('Rs', 'vp_resetter')], 3,
+                     setup='vp_setup_active', cover=15, opts=o, unwind=5, timeout=2400, defines=['WITH_RESET']))
+        qs.append(mk('tv_sequential', 'c11_trigger.cpp', [], 1, setup='vp_setup_inactive', seq=['vp_seq_inactive'], cover=1, unwind=4))
+    return qs
+
+
+SPECS['C11'] = dict(queries=c11, assumptions=COMMON_ASSUMPTIONS + [
+    "condition variable model as in C09, timed waits additionally have an always-enabled time-out transition; "
+    "libstdc++'s chrono -> timespec conversion divides by 10^9: the encoder replaces that quotient by 0 and the models read {sec,nsec} as sec*10^9+nsec",
+    "liveness (event wakes every blocked waiter) is asserted as absence of deadlock, only in scenarios without re-activation (the property's proviso)"],
+    outside=["re-activation while waiters are blocked", "more than 4 threads", "real-time durations (time is a nondeterministic time-out)"])
